@@ -30,9 +30,22 @@ class ZipObj(object):
         self.a, self.b, self.pos = a, b, 0
 
     def copy_val(self, memo, cp):
-        n = ZipObj(cp(self.a, memo), list(self.b))
+        n = ZipObj(cp(self.a, memo), self.b if isinstance(self.b, StepSeq) else list(self.b))
         n.pos = self.pos
         return n
+
+
+class StepSeq(object):
+    """start, start + step, start + 2 * step, ..  (`(a..).step_by(n)`): an unbounded sequence of integers"""
+
+    def __init__(self, start, step):
+        self.start, self.step = start, step
+
+    def __len__(self):
+        return 1 << 40
+
+    def __getitem__(self, i):
+        return self.start + i * self.step
 
 
 class Asm(object):
@@ -260,10 +273,18 @@ class BuildInterp(Interp):
                     self.exec_closure(st, args[1], [nx.fields[0]])
                 return UNIT
             raise Undecided("for_each on an unmodelled iterator")
+        if c == "core::iter::Iterator::step_by" and len(t["args"]) == 2:
+            args = [self.operand(st, a) for a in t["args"]]
+            src, n_ = args[0], args[1]
+            if isinstance(src, Adt) and src.path == "core::ops::RangeFrom" and isinstance(src.fields[0], int) and isinstance(n_, int) and n_ > 0:
+                return StepSeq(src.fields[0], n_)
+            raise Undecided("step_by on something other than `(literal..)` with a literal step")
         if c == "core::iter::Iterator::zip" and len(t["args"]) == 2:
             args = [self.operand(st, a) for a in t["args"]]
             if isinstance(args[0], bitsem.It) and isinstance(args[1], list):
                 return ZipObj(args[0], list(args[1]))
+            if isinstance(args[0], bitsem.It) and isinstance(args[1], StepSeq):
+                return ZipObj(args[0], args[1])
             raise Undecided("zip of something other than a buffer iterator and an array")
         if short == "into_iter" and len(t["args"]) == 1:
             a0 = self.operand(st, t["args"][0])
